@@ -410,7 +410,8 @@ def family_member(draw, fam):
     """one construct of a parameterised family; parameters come from small ranges so that members share SOME of them"""
     B1 = ["int", 1, False, "b", "alias"]
     if fam == "rol":
-        return ["rol", draw(st.integers(-20, 20)), draw(st.integers(1, 6)), ["gbytes"]]
+        # small ranges on purpose: members of one case must often share the amount and differ in the group (or vice versa)
+        return ["rol", draw(st.one_of(st.integers(-9, 9), st.integers(-20, 20))), draw(st.integers(1, 4)), ["gbytes"]]
     if fam == "xor":
         key = draw(st.one_of(st.integers(0, 255), st.binary(min_size=1, max_size=4)))
         return ["xor", key, ["gbytes"]]
@@ -439,7 +440,7 @@ def family_member(draw, fam):
 
 @st.composite
 def globalstate_cases(draw):
-    fam = draw(st.sampled_from(FAMILIES))
+    fam = draw(st.sampled_from(FAMILIES + ["rol", "bits", "bytesint"]))
     specs = []
     if fam == "generated":
         for _ in range(draw(st.integers(2, 3))):
